@@ -224,6 +224,14 @@ package frontend
 //@   requires s != nil && s.ctx != nil && errorsNonNil(s.ctx) && c != nil
 //@   nosafety
 //@   ensures len(s.ctx.Errors) == old(len(s.ctx.Errors)) + 1 && errorsNonNil(s.ctx)
+//@ func (s *BaseVisitor) EnterOC_Hint(c *parser.OC_HintContext)
+//@   requires s != nil && s.ctx != nil && errorsNonNil(s.ctx) && c != nil
+//@   nosafety
+//@   ensures len(s.ctx.Errors) == old(len(s.ctx.Errors)) + 1 && errorsNonNil(s.ctx)
+//@ func (s *BaseVisitor) EnterOC_CypherOption(c *parser.OC_CypherOptionContext)
+//@   requires s != nil && s.ctx != nil && errorsNonNil(s.ctx) && c != nil
+//@   nosafety
+//@   ensures len(s.ctx.Errors) == old(len(s.ctx.Errors)) + 1 && errorsNonNil(s.ctx)
 
 // ---- C08: the parts of totality that are function-local -----------------------------------------------------------------
 // Errors reported by the ANTLR lexer and parser are collected (each SyntaxError call appends one non-nil error, which
